@@ -17,6 +17,7 @@ def one(d):
     finally:
         shutil.rmtree(tmp, ignore_errors=True)
     al = sorted(set(re.findall(r"^((?:VIOLATED|UNDECIDED) rule=\S+ construct=\"[^\"]*\".*)$", r.stdout, re.M)))
+    al += sorted(set(re.findall(r"^(UNDECIDED engine:.*)$", r.stdout, re.M)))
     und = re.findall(r"^UNDECIDED property=.*$", r.stdout, re.M)
     return rid, al, und
 import glob
